@@ -50,6 +50,15 @@ def det_schema(draw) -> M.Schema:
         for n, im in enumerate(cans):
             im.fields = [(k, v) for k, v in im.fields if k != "device"] + [("device", pair[n % 2])]
             im.order = None
+    if len(s.enums) >= 2 and draw(st.integers(0, 2)) == 0:
+        # enumerator names are scoped by their enum in FCP: the same names may appear in several enums
+        a, b = s.enums[0], s.enums[1]
+        shared = ["Off", "On", "Error", "Idle"][: max(len(a.items), len(b.items), 2)]
+        for e in (a, b):
+            vals = [v for _n, v in e.items]
+            while len(vals) < len(shared):
+                vals.append(max(vals) + 1)
+            e.items = [(shared[i], vals[i]) for i in range(len(shared))]
     structs = [x.name for x in s.structs]
     taken = {(i.eff_name, i.protocol) for i in s.impls}
     for _ in range(draw(st.integers(0, 3))):
